@@ -558,11 +558,14 @@ func (cpu *CPU) cmdRead16() uint16 {
 		m_Absolute_Long_X,
 		m_Absolute_X,
 		m_Absolute_Y,
-		m_Absolute_X_Indirect,
 		m_Stack_Relative_Indirect_Y:
 		ll := cpu.Bus.EaRead(cpu.StepInfo.EA) // todo - zastapic to jakos?
 		hh := cpu.Bus.EaRead((cpu.StepInfo.EA + 1) & 0x00ffffff) // wrap on 24bits
 		return uint16(hh)<<8 | uint16(ll)
+
+	case m_Absolute_X_Indirect:
+		// the pointer of JMP/JSR (abs,X) lives in the program bank and wraps at its end
+		return cpu.nRead16_wrap(cpu.RK, uint16(cpu.StepInfo.EA))
 
 	case m_Absolute,
 		m_DP_X_Indirect,
